@@ -58,7 +58,8 @@ pub struct Ctx {
     pub replaying: bool,
     pub replay_target: Option<u64>,
     hb_path: Option<PathBuf>,
-    hb_last: Instant,
+    hb_last: std::cell::Cell<Instant>,
+    begins: std::cell::Cell<u64>,
     /// (start, case index) of the case that runs now; (seconds, case index) of the slowest so far
     case_started: std::cell::Cell<Option<(Instant, u64)>>,
     slowest: std::cell::Cell<(f64, u64)>,
@@ -97,7 +98,8 @@ impl Ctx {
             replaying: false,
             replay_target: None,
             hb_path: std::env::var("VERIF_HB").ok().map(PathBuf::from),
-            hb_last: Instant::now(),
+            hb_last: std::cell::Cell::new(Instant::now()),
+            begins: std::cell::Cell::new(0),
             case_started: std::cell::Cell::new(None),
             slowest: std::cell::Cell::new((0.0, 0)),
             counter: 0,
@@ -125,9 +127,9 @@ impl Ctx {
         self.counter += 1;
         // heartbeat for the orchestrator's stall detection (progress = case counter)
         if let Some(p) = &self.hb_path {
-            if self.hb_last.elapsed() > Duration::from_millis(500) {
-                let _ = std::fs::write(p, format!("{} {}", c, self.evals));
-                self.hb_last = Instant::now();
+            if self.hb_last.get().elapsed() > Duration::from_millis(500) {
+                let _ = std::fs::write(p, format!("{} {} {}", c, self.evals, self.begins.get()));
+                self.hb_last.set(Instant::now());
             }
         }
         if self.replaying {
@@ -159,6 +161,15 @@ impl Ctx {
             }
         }
         self.case_started.set(Some((now, self.counter.saturating_sub(1))));
+        // every announced case is progress: a block of a million strings owned by one `take()`
+        // must not look like one stuck case to the orchestrator
+        self.begins.set(self.begins.get() + 1);
+        if let Some(p) = &self.hb_path {
+            if self.hb_last.get().elapsed() > Duration::from_millis(500) {
+                let _ = std::fs::write(p, format!("{} {} {}", self.counter, self.evals, self.begins.get()));
+                self.hb_last.set(now);
+            }
+        }
         if self.trace {
             let mut e = std::io::stderr();
             // one short line per case: the tracer reads only the tail of the file
